@@ -608,7 +608,8 @@ class AttributeCollection(MutableMapping[int, Attribute]):
             segments.append(SEQUENCE(as_seq))
         if as_set:
             segments.append(SET(as_set))
-        aspath = AS2Path.make_aspath(segments)
+        # the merged path holds the 4-byte AS numbers of AS4_PATH: keep it in 4-byte form
+        aspath = AS2Path.make_aspath(segments, asn4=True)
         self.add(aspath, key)
 
     def __hash__(self) -> int:
